@@ -124,7 +124,7 @@ def make_families(rng, n, fid0, gene_specs, small=False):
         # filter depend on the per-region copy number, so such a twin must not influence its neighbour either.
         if same_universe and rng.random() < 0.7:
             for struct, majors, sc in list(pool):
-                if len(pool) > want:
+                if len(pool) > want or (gname != "toy" and small and len(pool) >= 3):
                     break
                 cands = [(a, f) for a in set(majors) for f in other if f.endswith(f"#{a}")]
                 if not cands:
@@ -502,7 +502,14 @@ def report(ctx, bad, hmeta, by_tid, fam_by):
                     cv = next(x["value"] for x in m["parts"] if f"c{x['cand']}" == cand)
                     bv = next(x["value"] for x in b["parts"] if f"c{x['cand']}" == cand)
                     tie = cv["sc"] and len(cv["sc"]) == len(bv["sc"]) and all(abs(x - y) < 1e-5 for x, y in zip(cv["sc"], bv["sc"]))
-                    if m["univ"] != b["univ"]:
+                    same_ref = cv["s"]["refinement"] == bv["s"]["refinement"]
+                    nadd = sum(len(c_[2]) for r_ in cv["s"]["refinement"] for c_ in r_)
+                    if same_ref and nadd and len(cv["sc"]) == len(bv["sc"]) and \
+                            all(abs(x - y) <= 0.2 * nadd + 1e-5 for x, y in zip(cv["sc"], bv["sc"])):
+                        # the SAME alleles, added and lost variants: the objective proper is the same; what differs is the
+                        # tie-break weight minor_add * cnt / 1e6 of the added variants, cnt = ordinal in the pooled model
+                        shape = "same-refinement-tie-weight-digits"
+                    elif m["univ"] != b["univ"]:
                         shape = "co-candidates-contribute-variants"
                     elif tie:
                         shape = "equal-score-tie"          # another optimal assignment of the same model
